@@ -121,6 +121,9 @@ type simInfo struct {
 
 func (i simInfo) Name() string { return i.name }
 func (i simInfo) Size() int64 {
+	if i.spec.Fifo {
+		return 0
+	}
 	if i.spec.StatSize > 0 {
 		return int64(i.spec.StatSize - 1)
 	}
@@ -129,6 +132,9 @@ func (i simInfo) Size() int64 {
 func (i simInfo) Mode() fs.FileMode {
 	if i.spec.IsDir {
 		return fs.ModeDir | 0o755
+	}
+	if i.spec.Fifo {
+		return fs.ModeNamedPipe | 0o644
 	}
 	return 0o644
 }
@@ -222,6 +228,9 @@ func (f *File) Seek(off int64, whence int) (int64, error) {
 		if f.spec.IsDir {
 			return 0, nil
 		}
+		if f.spec.Fifo {
+			return 0, &fs.PathError{Op: "seek", Path: f.name, Err: syscall.ESPIPE}
+		}
 		if t := core.Cur(); t != nil {
 			t.Yield(core.KYield, nil, "file-seek", off)
 		}
@@ -244,6 +253,9 @@ func (f *File) ReadAt(p []byte, off int64) (int, error) {
 		}
 		if off < 0 {
 			return 0, &fs.PathError{Op: "readat", Path: f.name, Err: errors.New("negative offset")}
+		}
+		if f.spec.Fifo {
+			return 0, &fs.PathError{Op: "read", Path: f.name, Err: syscall.ESPIPE}
 		}
 		if t := core.Cur(); t != nil {
 			t.Yield(core.KRead, nil, "file-readat", int64(len(p)))
